@@ -88,6 +88,43 @@ def compare_build(case, obs, bv, route):
     return [dict(what=w, route=route, observed=o, expected=e) for w, o, e in bad]
 
 
+def create_odesys_events(rsys, names, rng, skips):
+    """The second builder, `_create_odesys`, hands the composition vectors over as well.  It takes symbolic rate
+    constants only, so it is given a twin of the system (same stoichiometries incl. inactive parts, same substances,
+    constants 'k1', 'k2', ...) and - the configuration dimension - the substance symbols as a plain dict in the
+    system's order or in a rotated/reversed order.  The vectors are read against the names the built system reports:
+    column j of the event is the column of the substance names[j]."""
+    try:
+        import sympy
+        from chempy import Reaction, ReactionSystem
+        from chempy.kinetics.ode import _create_odesys
+        twin = ReactionSystem([Reaction(r.reac, r.prod, "k%d" % (i + 1), inact_reac=r.inact_reac, inact_prod=r.inact_prod,
+                                        checks=()) for i, r in enumerate(rsys.rxns)], rsys.substances)
+        order = list(names)
+        how = rng.choice(["same", "reversed", "rotated"])
+        if how == "reversed":
+            order.reverse()
+        elif how == "rotated":
+            order = order[1:] + order[:1]
+        symbols = {k: sympy.Symbol("y_%d" % names.index(k), real=True) for k in order}
+        odesys, _ = _create_odesys(twin, substance_symbols=symbols)
+    except Exception as e:   # the builder refused this system / configuration: nothing to judge
+        skips.append("_create_odesys raised %s" % type(e).__name__)
+        return []
+    src = "_create_odesys:symbols-" + how
+    ev = cc.observe_invariants(odesys)
+    got = list(odesys.names or [])
+    if ev.get("ev") != "BVectors" or "B" not in ev:
+        ev["src"] = src
+        return [ev]
+    if sorted(map(str, got)) != sorted(map(str, names)) or any(len(row) != len(names) for row in ev["B"]):
+        return [cc.bad_event("BVectors", "names=%r for substances %r, B=%r" % (got, names, ev["B"]), src=src)]
+    perm = [got.index(n) for n in names]
+    ev["B"] = [[row[j] for j in perm] for row in ev["B"]]
+    ev["src"] = src
+    return [ev]
+
+
 def deep_events(rsys, sysin, exp, rng):
     """Observations on an accepted system (object route), as trace events."""
     from chempy.kinetics.ode import get_odesys
@@ -129,6 +166,7 @@ def deep_events(rsys, sysin, exp, rng):
     if list(odesys.names) != names:
         raise core.MachineryFailure("odesys.names %r differ from the substances given %r" % (odesys.names, names))
     evs.append(cc.observe_invariants(odesys))
+    evs += create_odesys_events(rsys, names, rng, skips)
     # analytic eliminations: all (preferred=None), each single substance, pairs
     if extra["linear_dependencies"] is not None:
         prefs = [None] + [[n] for n in names]
